@@ -5,6 +5,9 @@ import json
 import os
 import re
 
+# `skip` and `skip = true` skip; `skip = false` is an ordinary member
+SKIP_RX = r"\bskip\b(?!\s*=\s*false)"
+
 from vlib import facts
 
 
@@ -143,7 +146,7 @@ def name_table_rules(ctx, prefix, kind):
             for fm in re.finditer(r"((?:#\[darling\([^\]]*\)\]\s*)*)pub\s+((?:r#)?\w+)\s*:", body.group(1)):
                 attrs, fname = fm.group(1), fm.group(2)
                 ren = re.search(r'rename = "([^"]*)"', attrs)
-                if re.search(r"\bskip\b", attrs) or re.search(r"\bflatten\b", attrs):
+                if re.search(SKIP_RX, attrs) or re.search(r"\bflatten\b", attrs):
                     continue
                 want.append(ren.group(1) if ren else case_field(rule, fname))
             want = sorted(want)
@@ -163,7 +166,7 @@ def name_table_rules(ctx, prefix, kind):
                 if vm and not s.startswith("#"):
                     vname = vm.group(1)
                     ren = re.search(r'rename = "([^"]*)"', pending)
-                    skip = re.search(r"\bskip\b", pending)
+                    skip = re.search(SKIP_RX, pending)
                     pending = ""
                     if not skip:
                         want.add(ren.group(1) if ren else case_variant(rule or "snake_case", vname))
@@ -171,7 +174,7 @@ def name_table_rules(ctx, prefix, kind):
                     for fm in re.finditer(r"(?:#\[darling\(([^\]]*)\)\] )?(\w+): ", s[s.find("{") + 1:] if "{" in s else ""):
                         attrs, fname = fm.group(1) or "", fm.group(2)
                         ren = re.search(r'rename = "([^"]*)"', attrs)
-                        if re.search(r"\bskip\b", attrs):
+                        if re.search(SKIP_RX, attrs):
                             continue
                         want.add(ren.group(1) if ren else case_field(rule or "snake_case", fname))
             want = sorted(want)
